@@ -98,7 +98,7 @@ public:
   /**
    * @return The remaining tokens as if the original corresponding string was not parsed.
    */
-  std::string unparseRemainingTokens() const;
+  virtual std::string unparseRemainingTokens() const;
 };
 } // end of namespace bpp.
 #endif // BPP_TEXT_STRINGTOKENIZER_H
